@@ -59,7 +59,7 @@ def subsidy(height):
     return (50 * 100000000) >> (height // 210000) if height // 210000 < 64 else 0
 
 
-def gen_chain(r, coin, n, max_txs=4, max_io=3, segwit=True, odd_widths=True, auxpow_mix=True, start_height=0, genesis=None, scripts=None, big=None):
+def gen_chain(r, coin, n, max_txs=4, max_io=3, segwit=True, odd_widths=True, auxpow_mix=True, start_height=0, genesis=None, scripts=None, big=None, extreme_values=False):
     """n linked blocks with correct merkle roots.  Returns [Block]."""
     blocks = []
     prev = b"\0" * 32
@@ -90,7 +90,7 @@ def gen_chain(r, coin, n, max_txs=4, max_io=3, segwit=True, odd_widths=True, aux
                     tx, i = rb(r, 32), r.randrange(4)
                 ins.append((tx, i, rb(r, r.choice([0, 1, 72, 107, 253, 300])), r.choice([0xffffffff, 0xfffffffe, r.randrange(1 << 32)])))
             nout = r.randrange(0 if r.random() < 0.03 else 1, max_io + 1)
-            outs = [(r.choice([0, 1, 546, r.randrange(21 * 10**14), r.randrange(1 << 64)]) if r.random() < 0.2 else r.randrange(10**10), (scripts or spk)(r, coin)) for _ in range(nout)]
+            outs = [(r.choice([0, 1, 546, r.randrange(21 * 10**14), r.randrange(1 << 64) if extreme_values else r.randrange(10**15)]) if r.random() < 0.2 else r.randrange(10**10), (scripts or spk)(r, coin)) for _ in range(nout)]
             tx = K.Tx(ins, outs, version=r.choice([1, 2]), lock=r.choice([0, 0, r.randrange(1 << 32)]))
             if odd_widths and r.random() < 0.15:
                 tx.w_in = r.choice([3, 5, 9])
